@@ -25,8 +25,8 @@ def describe(meta):
 def run(ctx):
     return c01.run_family(
         ctx, "TestOnly", gen_tonl.build_tonl, {"TONL"}, cfg,
-        modes_quick=[("single", None), ("seq2", None), ("seq3", 3000)],
-        modes_thorough=[("single", None), ("seq2", None), ("seq3", None)],
+        modes_quick=[("single", None), ("seq2", None), ("seq3", 3000), ("spell", None)],
+        modes_thorough=[("single", None), ("seq2", None), ("seq3", None), ("spell", None)],
         devs=[("DedupByName", "seq2", ("Exact",)), ("MatchByName", "single", ("Exact",)), ("StopAtReportedCall", "single", ("Exact",)), ("ExportedOnly", "single", ("Exact",)), ("OnePerPosition", "single", ("Exact",)), ("GroupDocLeaks", "single", ("Exact",)),
               ("SkipMethodNamedLikeFunc", "single", ("Exact",))],
         describe=describe,
